@@ -57,6 +57,9 @@ pub struct Counters {
     pub frame_checks: usize,
     pub copy_checks: usize,
     pub timing_checks: usize,
+    /// durations of one second or more that were checked against their brackets
+    pub timing_long: usize,
+    pub timing_long_local: usize,
     pub call_checks: usize,
     pub batch_checks: usize,
     pub lazy_checks: usize,
@@ -1313,6 +1316,13 @@ fn check_copies(
             if gp != want_props || ge != want_events {
                 v(out, Cat::CopyDiff, "to-records-content", format!("to_span_records: {:?} has properties {:?} / events {:?}, expected {:?} / {:?}", r.name, short(&gp), ge, short(&want_props), want_events));
             }
+            // duration against the operation brackets (spans open at collect end at the collect)
+            if let Some((lo, hi, tol)) = local_bounds(prog, ex, *l) {
+                cn.timing_checks += 1;
+                if r.duration_ns + tol < lo || r.duration_ns > hi + tol {
+                    v(out, Cat::Timing, "to-records-duration", format!("to_span_records: {:?} has duration {} ns outside [{}, {}] (+-{} ns) measured around its start and its finish / the collect", r.name, r.duration_ns, lo, hi, tol));
+                }
+            }
             // against a delivered copy of the same local span
             if let Some(copies) = by_ent.get(&Ent::L(*l)) {
                 let c = copies[0];
@@ -1326,6 +1336,28 @@ fn check_copies(
 }
 
 const TOL_NS: u64 = 200_000;
+
+/// Bounds on a duration measured between two bracketed operations: fastant's calibrated clock may
+/// run up to a few parts per thousand off the OS monotonic clock used for the brackets.
+fn tol_for(hi: u64) -> u64 {
+    TOL_NS + hi / 200
+}
+
+/// (lo, hi, tolerance) for the duration of a local span from the brackets of its enter and of its
+/// exit (or, when it was still open, of the operation that closed its line).
+fn local_bounds(prog: &Program, ex: &Execution, l: u32) -> Option<(u64, u64, u64)> {
+    let m = &prog.model;
+    let ml = m.locals.get(&l)?;
+    let fin = match ml.exit_op {
+        Some(x) => x,
+        None => m.lines[ml.line].close_op?,
+    };
+    let c = ex.results.get(ml.enter_op).filter(|r| r.done)?;
+    let f = ex.results.get(fin).filter(|r| r.done)?;
+    let lo = f.t0.saturating_sub(c.t1);
+    let hi = f.t1.saturating_sub(c.t0);
+    Some((lo, hi, tol_for(hi)))
+}
 
 fn check_timing(
     prog: &Program,
@@ -1363,10 +1395,16 @@ fn check_timing(
         };
         let _ = open_at_collect;
         cn.timing_checks += 1;
+        if f.t0.saturating_sub(c.t1) >= 1_000_000_000 {
+            cn.timing_long += 1;
+            if matches!(e.ent, Ent::L(_)) {
+                cn.timing_long_local += 1;
+            }
+        }
         // a poll-local span begins after the call began and before the call's end index began
         let lo = f.t0.saturating_sub(c.t1);
         let hi = f.t1.saturating_sub(c.t0);
-        let tol = TOL_NS + hi / 1000;
+        let tol = tol_for(hi);
         if r.duration_ns + tol < lo || r.duration_ns > hi + tol {
             v(out, Cat::Timing, "duration", format!("{:?}: duration {} ns outside [{}, {}] (+-{} ns) measured around its creation (flat {}) and finish (flat {:?})", r.name, r.duration_ns, lo, hi, tol, create_flat, finish_flat));
         }
@@ -1426,7 +1464,7 @@ fn check_timing(
                         cn.timing_checks += 1;
                         let lo = t0.saturating_sub(c.t1);
                         let hi = t1.saturating_sub(c.t0);
-                        let tol = TOL_NS + hi / 1000;
+                        let tol = tol_for(hi);
                         if el + tol < lo || el > hi + tol {
                             v(out, Cat::Timing, "elapsed", format!("elapsed() of {:?} returned {} ns, outside [{}, {}]", sname(sp), el, lo, hi));
                         }
